@@ -83,7 +83,7 @@ impl Property for C05 {
     fn cases(tier: Tier) -> u32 {
         match tier {
             Tier::Quick => 1400,
-            Tier::Thorough => 40_000,
+            Tier::Thorough => 12_000,
         }
     }
 
@@ -96,7 +96,7 @@ impl Property for C05 {
     fn strategy(tier: Tier) -> BoxedStrategy<Case> {
         let maxlen = match tier {
             Tier::Quick => 320u16,
-            Tier::Thorough => 2500u16,
+            Tier::Thorough => 800u16,
         };
         (
             any::<u64>(),
